@@ -351,6 +351,8 @@ func runC06(r *Run) {
 		{"pick([tr(1)], tr(2))", 2}, {"union([tr(1)], [tr(2), tr(3)])", 3}, {"len([tr(1), tr(2)]) + abs(tr(3))", 3}, {"[tr(1): tr(2), tr(3): tr(4)]", 4}, {"isset([tr(1): 0], tr(2))", 2},
 		{"-tr(1) + -tr(2)", 2}, {"(tr(1) > 0 ? tr(2) : tr(99)) + tr(3)", 3}, {"[tr(1), tr(2)][tr(3) - 3] + [tr(4)][tr(5) - 5]", 5}, {"lazyif(tr(1) > 0, tr(2), tr(99)) + tr(3)", 3},
 		{"lazyif(b, lazyif(b, tr(1), tr(99)), tr(98)) + tr(2)", 2}, {"[lazyif(b, lazyif(b, tr(1), tr(99)), tr(98)), tr(2)]", 2}, {"lazyif(b, lazyif(f, tr(99), tr(1)) * 2, tr(98)) - tr(2)", 2},
+		{"if(!!(tr(1) > 0), tr(2), tr(99))", 2}, {"if(!!!(tr(1) > 0), tr(99), tr(2))", 2}, {"!!(tr(1) < 0) && tr(99) > 0", 1}, {"!!(tr(1) > 0) || tr(99) > 0", 1}, {"!(!(tr(1) > 0)) ? tr(2) : tr(99)", 2},
+		{"!!!!(tr(1) > 0) && tr(2) > 0", 2}, {"if(!(tr(1) > 0), tr(99), tr(2))", 2},
 		{"both(both(trb(b), trb(b)), trb(b)) || tr(1) > 0", 0}, {"if(both(b, both(b, b)), tr(1), tr(99)) + tr(2)", 2},
 	} {
 		o := judgeTrace(r, evalCase{c.src, true}, vars)
